@@ -6,6 +6,8 @@ pid, k, det, checks = sys.argv[1:5]
 note = sys.argv[5] if len(sys.argv) > 5 else ""
 src = f"/tmp/mut/{pid}/_out"; dst = f"/verif/seeded/{pid}-{k}"
 os.makedirs(dst, exist_ok=True)
+if not note and os.path.exists(f"{dst}/meta.json"):
+    note = json.load(open(f"{dst}/meta.json")).get("detection", {}).get("note", "")   # keep the history of an earlier run
 shutil.copy(f"{src}/patch_{k}.diff", f"{dst}/patch.diff")
 shutil.copy(f"{src}/demo_{k}.rs", f"{dst}/demo.rs")
 meta = json.load(open(f"{src}/meta_{k}.json"))
